@@ -19,6 +19,8 @@ use std::collections::BTreeMap;
 #[derive(DdsType, Debug, Clone)] pub struct T9 { #[dust_dds(key)] pub a: u16, #[dust_dds(key)] pub b: u16, #[dust_dds(key)] pub c: u16, #[dust_dds(key)] pub d: u16, #[dust_dds(key)] pub e: u16,
                                                   #[dust_dds(key)] pub f: u16, #[dust_dds(key)] pub g: u16, #[dust_dds(key)] pub h: u16, #[dust_dds(key)] pub i: u8 }
 #[derive(DdsType, Debug, Clone)] pub struct T10 { #[dust_dds(key)] pub a: u8, #[dust_dds(key)] pub b: u16, pub x: String, #[dust_dds(key)] pub c: u8, #[dust_dds(key)] pub d: i32, #[dust_dds(key)] pub e: u8 }
+#[derive(DdsType, Debug, Clone)] pub struct T11 { pub inner: Inner5, pub x: Vec<u8> }
+#[derive(DdsType, Debug, Clone)] pub struct T12 { pub x: Vec<u8>, #[dust_dds(key)] pub id: i32 }
 
 fn s(v: &Value) -> String { String::from_utf8(v.as_array().unwrap().iter().map(|x| x.as_u64().unwrap() as u8).collect()).unwrap() }
 fn n(v: &Value) -> i64 { v.as_i64().unwrap() }
@@ -37,6 +39,8 @@ pub fn handle(t: &str, v: &Value, alt: bool) -> Result<[u8; 16], String> {
         "T8" => T8 { a: n(&v[0]) as i32, b: n(&v[1]) as i32, x: x as u64 * 1_000_000_007, c: n(&v[2]) as i32, d: n(&v[3]) as i32 }.create_dynamic_sample(),
         "T9" => T9 { a: n(&v[0]) as u16, b: n(&v[1]) as u16, c: n(&v[2]) as u16, d: n(&v[3]) as u16, e: n(&v[4]) as u16, f: n(&v[5]) as u16, g: n(&v[6]) as u16, h: n(&v[7]) as u16, i: n(&v[8]) as u8 }.create_dynamic_sample(),
         "T10" => T10 { a: n(&v[0]) as u8, b: n(&v[1]) as u16, x: if alt { "zzz".into() } else { "q".into() }, c: n(&v[2]) as u8, d: n(&v[3]) as i32, e: n(&v[4]) as u8 }.create_dynamic_sample(),
+        "T11" => T11 { inner: Inner5 { id: n(&v[0]) as u16, y: x }, x: if alt { vec![9; 7] } else { vec![] } }.create_dynamic_sample(),
+        "T12" => T12 { x: if alt { vec![9; 7] } else { vec![] }, id: n(&v[0]) as i32 }.create_dynamic_sample(),
         o => return Err(format!("unknown type {o}")),
     };
     std::panic::catch_unwind(std::panic::AssertUnwindSafe(|| get_instance_handle_from_dynamic_data(&d)))
@@ -110,7 +114,9 @@ pub fn run_cases(path: &str) -> Value {
 use crate::scen::World;
 use dust_dds::infrastructure::{listener::NO_LISTENER, qos::QosKind, sample_info::{ANY_INSTANCE_STATE, ANY_SAMPLE_STATE, ANY_VIEW_STATE}, status::NO_STATUS};
 
-async fn e2e_typed<T>(w: &mut World, tname: &str, values: &[Value], make: impl Fn(&Value) -> T) -> Vec<Value>
+/// `make(v, fat)`: the sample with key `v`; `fat` = its non-key members are so large that the sample is fragmented (DATA_FRAG
+/// carries no inline QoS, so the key hash does not travel and the reader derives the handle from the payload).
+async fn e2e_typed<T>(w: &mut World, tname: &str, values: &[Value], fat_capable: bool, make: impl Fn(&Value, bool) -> T) -> Vec<Value>
 where
     T: TypeSupport + Clone + Send + Sync + 'static,
 {
@@ -126,9 +132,9 @@ where
         w.sleep_ms(800).await;
         let mut reg = Vec::new();
         for v in values {
-            let h = writer.register_instance(make(v)).await?;
+            let h = writer.register_instance(make(v, false)).await?;
             reg.push(h.map(|h| <[u8; 16]>::from(h).to_vec()));
-            writer.write(make(v), None).await?;
+            writer.write(make(v, false), None).await?;
         }
         w.sleep_ms(500).await;
         let samples = reader.take(i32::MAX, ANY_SAMPLE_STATE, ANY_VIEW_STATE, ANY_INSTANCE_STATE).await.unwrap_or_default();
@@ -136,9 +142,20 @@ where
             let hr = samples.get(k).map(|s| <[u8; 16]>::from(s.sample_info.instance_handle).to_vec());
             out.push(json!({"ev": "KeyE2E", "type": tname, "v": v, "phase": "alive", "hw": reg[k], "hr": hr}));
         }
+        if fat_capable {
+            for v in values {
+                writer.write(make(v, true), None).await?;
+            }
+            w.sleep_ms(800).await;
+            let samples = reader.take(i32::MAX, ANY_SAMPLE_STATE, ANY_VIEW_STATE, ANY_INSTANCE_STATE).await.unwrap_or_default();
+            for (k, v) in values.iter().enumerate() {
+                let hr = samples.get(k).map(|s| <[u8; 16]>::from(s.sample_info.instance_handle).to_vec());
+                out.push(json!({"ev": "KeyE2E", "type": tname, "v": v, "phase": "alive-fragmented-no-key-hash-on-the-wire", "hw": reg[k], "hr": hr}));
+            }
+        }
         // dispose the first instance: the reader derives the handle from the key-only payload
         if let Some(v) = values.first() {
-            writer.dispose(make(v), None).await?;
+            writer.dispose(make(v, false), None).await?;
             w.sleep_ms(500).await;
             let samples = reader.take(i32::MAX, ANY_SAMPLE_STATE, ANY_VIEW_STATE, ANY_INSTANCE_STATE).await.unwrap_or_default();
             let hr = samples.first().map(|s| <[u8; 16]>::from(s.sample_info.instance_handle).to_vec());
@@ -154,17 +171,20 @@ where
 
 pub async fn e2e(w: &mut World, t: &str, values: &[Value]) -> Vec<Value> {
     let x = 3u8;
+    let big = |fat: bool, small: &str| -> String { if fat { "z".repeat(3000) } else { small.to_string() } };
     match t {
-        "T1" => e2e_typed(w, t, values, |v| T1 { a: n(&v[0]) as u8, x: 7, y: "y".into() }).await,
-        "T2" => e2e_typed(w, t, values, |v| T2 { x, a: n(&v[0]) as i32, b: n(&v[1]) as u16 }).await,
-        "T3" => e2e_typed(w, t, values, |v| T3 { s: s(&v[0]), x }).await,
-        "T4" => e2e_typed(w, t, values, |v| T4 { a: n(&v[0]) as u8, x: vec![1], s: s(&v[1]) }).await,
-        "T5" => e2e_typed(w, t, values, |v| T5 { inner: Inner5 { id: n(&v[0]) as u16, y: x }, b: n(&v[1]) as u8 }).await,
-        "T6" => e2e_typed(w, t, values, |v| T6 { k: Key6 { a: n(&v[0]) as u8, b: n(&v[1]) as i32 }, x: 9 }).await,
-        "T7" => e2e_typed(w, t, values, |v| T7 { a: n(&v[0]) as i32, b: n(&v[1]) as i32, c: n(&v[2]) as i32, d: n(&v[3]) as i32, e: n(&v[4]) as u8, x }).await,
-        "T8" => e2e_typed(w, t, values, |v| T8 { a: n(&v[0]) as i32, b: n(&v[1]) as i32, x: 5, c: n(&v[2]) as i32, d: n(&v[3]) as i32 }).await,
-        "T9" => e2e_typed(w, t, values, |v| T9 { a: n(&v[0]) as u16, b: n(&v[1]) as u16, c: n(&v[2]) as u16, d: n(&v[3]) as u16, e: n(&v[4]) as u16, f: n(&v[5]) as u16, g: n(&v[6]) as u16, h: n(&v[7]) as u16, i: n(&v[8]) as u8 }).await,
-        "T10" => e2e_typed(w, t, values, |v| T10 { a: n(&v[0]) as u8, b: n(&v[1]) as u16, x: "q".into(), c: n(&v[2]) as u8, d: n(&v[3]) as i32, e: n(&v[4]) as u8 }).await,
+        "T1" => e2e_typed(w, t, values, true, |v, fat| T1 { a: n(&v[0]) as u8, x: 7, y: big(fat, "y") }).await,
+        "T2" => e2e_typed(w, t, values, false, |v, _| T2 { x, a: n(&v[0]) as i32, b: n(&v[1]) as u16 }).await,
+        "T3" => e2e_typed(w, t, values, false, |v, _| T3 { s: s(&v[0]), x }).await,
+        "T4" => e2e_typed(w, t, values, true, |v, fat| T4 { a: n(&v[0]) as u8, x: if fat { vec![1; 3000] } else { vec![1] }, s: s(&v[1]) }).await,
+        "T5" => e2e_typed(w, t, values, false, |v, _| T5 { inner: Inner5 { id: n(&v[0]) as u16, y: x }, b: n(&v[1]) as u8 }).await,
+        "T6" => e2e_typed(w, t, values, false, |v, _| T6 { k: Key6 { a: n(&v[0]) as u8, b: n(&v[1]) as i32 }, x: 9 }).await,
+        "T7" => e2e_typed(w, t, values, false, |v, _| T7 { a: n(&v[0]) as i32, b: n(&v[1]) as i32, c: n(&v[2]) as i32, d: n(&v[3]) as i32, e: n(&v[4]) as u8, x }).await,
+        "T8" => e2e_typed(w, t, values, false, |v, _| T8 { a: n(&v[0]) as i32, b: n(&v[1]) as i32, x: 5, c: n(&v[2]) as i32, d: n(&v[3]) as i32 }).await,
+        "T9" => e2e_typed(w, t, values, false, |v, _| T9 { a: n(&v[0]) as u16, b: n(&v[1]) as u16, c: n(&v[2]) as u16, d: n(&v[3]) as u16, e: n(&v[4]) as u16, f: n(&v[5]) as u16, g: n(&v[6]) as u16, h: n(&v[7]) as u16, i: n(&v[8]) as u8 }).await,
+        "T10" => e2e_typed(w, t, values, true, |v, fat| T10 { a: n(&v[0]) as u8, b: n(&v[1]) as u16, x: big(fat, "q"), c: n(&v[2]) as u8, d: n(&v[3]) as i32, e: n(&v[4]) as u8 }).await,
+        "T11" => e2e_typed(w, t, values, true, |v, fat| T11 { inner: Inner5 { id: n(&v[0]) as u16, y: x }, x: if fat { vec![7; 3000] } else { vec![7] } }).await,
+        "T12" => e2e_typed(w, t, values, true, |v, fat| T12 { x: if fat { vec![7; 3000] } else { vec![7] }, id: n(&v[0]) as i32 }).await,
         _ => vec![json!({"ev": "KeyE2E", "type": t, "error": "unknown type"})],
     }
 }
